@@ -234,7 +234,12 @@ mod imp {
             4 => isize::MAX as usize - len,
             _ => (isize::MAX as usize - cap).min(isize::MAX as usize - len - 7),
         };
-        let snap = d.snapshot();
+        // the harness's own bookkeeping (snapshots, strings) is allocated outside the ledger scope, so that the
+        // leak balance at the end of the history counts the crate's allocations only
+        let snap = {
+            let _p = vharness::seq::mem::pause();
+            d.snapshot()
+        };
         let r = {
             let m = match &mut d.pool[i].val {
                 Val::M(m) => m,
@@ -248,7 +253,9 @@ mod imp {
                     let _ = m.try_reclaim(n);
                 }
             })
+            .map_err(|_msg| ()) // the message string is the harness's, not the crate's: dropped here
         };
+        let _p = vharness::seq::mem::pause();
         d.obs.inc("abort_class_calls");
         match r {
             Err(_) => {
@@ -271,9 +278,14 @@ mod imp {
                 }
             }
         }
+        drop(snap);
+        drop(_p);
         d.check_all();
-        d.obs.cell(format!("single|start{start}|op{op}|arg{cls}"));
-        d.obs.sample(format!("{case}: n={n} on a BytesMut with len={len} cap={cap}"));
+        {
+            let _p = vharness::seq::mem::pause();
+            d.obs.cell(format!("single|start{start}|op{op}|arg{cls}"));
+            d.obs.sample(format!("{case}: n={n} on a BytesMut with len={len} cap={cap}"));
+        }
         d.finish(&mut ch, false);
         d.obs.inc("histories");
     }
